@@ -528,5 +528,14 @@ def r03_10(ctx):
     delegate(ctx, c05.r05_7, lambda c: "replacing load" in c or "is reset over" in c)
 
 
+def r03_11(ctx):
+    """R03.11 what decides a `set` target is computed in this evaluation: in the typed branches of Symbol.str_value the steps run in
+    source order - ranges, `set`, user value, `set default`, defaults (C01 R01.2) - so that nothing reads the `set` flag before the
+    `set` step of the same evaluation has written it."""
+    from . import c01
+    from .common import delegate
+    delegate(ctx, c01.r01_2, lambda c: True)
+
+
 def rules():
-    return [("R03.10", r03_10, 4), ("R03.9", r03_9, 6), ("R03.8", r03_8, 1), ("R03.7", r03_7, 3), ("R03.1", r03_1, 14), ("R03.2", r03_2, 9), ("R03.3", r03_3, 7), ("R03.4", r03_4, 4), ("R03.5", r03_5, 8), ("R03.6", r03_6, 5)]
+    return [("R03.11", r03_11, 2), ("R03.10", r03_10, 4), ("R03.9", r03_9, 6), ("R03.8", r03_8, 1), ("R03.7", r03_7, 3), ("R03.1", r03_1, 14), ("R03.2", r03_2, 9), ("R03.3", r03_3, 7), ("R03.4", r03_4, 4), ("R03.5", r03_5, 8), ("R03.6", r03_6, 5)]
